@@ -637,7 +637,7 @@ def judge_scale(ctx, recs, what):
 # kinds of data object: what the caller can do to the buffer behind it while the OBJECT stays the same
 WKINDS = ["roview", "bcast", "memmap", "robuf", "rostrided", "writable", "list", "rofield"]
 RO_NDARRAY = ("roview", "bcast", "memmap", "robuf", "rostrided", "rofield")
-WORLD = {"quick": dict(export=dict(WThin=1, WXColl=3, WXRest=80), sim_depth=10, sim_num=100, sim_keep=150),
+WORLD = {"quick": dict(export=dict(WThin=1, WXColl=4, WXRest=120), sim_depth=10, sim_num=100, sim_keep=150),
          "thorough": dict(export=dict(WThin=1, WXColl=11, WXRest=900), sim_depth=14, sim_num=400, sim_keep=1500)}
 
 
@@ -653,7 +653,10 @@ def w_make(kind, vals, tmpdir, tag):
         def write(new): row[:] = new
     elif kind == "memmap":
         import os
-        path = os.path.join(tmpdir, "m%s.bin" % tag)
+        import tempfile
+        if not tmpdir:
+            tmpdir.append(tempfile.mkdtemp(prefix="C05-world-"))
+        path = os.path.join(tmpdir[0], "m%s.bin" % tag)
         a.tofile(path)
         wm = np.memmap(path, dtype="f8", mode="r+")
         v = np.memmap(path, dtype="f8", mode="r")
@@ -717,7 +720,7 @@ def world_session(args):
     srep = SREPS[i % len(SREPS)]
     engine = "c" if i % 2 else "py"
     kinds = _w_kinds(i, w)
-    tmpdir = tempfile.mkdtemp(prefix="C05-world-")
+    tmpdir = []                 # made only if a memmap is needed
     saved = su.have_chist
     su.have_chist = (engine == "c") and saved
     outs, frame_ok = [], True
@@ -759,7 +762,8 @@ def world_session(args):
     finally:
         su.have_chist = saved
         objs = writers = None
-        shutil.rmtree(tmpdir, ignore_errors=True)
+        if tmpdir:
+            shutil.rmtree(tmpdir[0], ignore_errors=True)
     return {"id": i, "kind": "world", "w": w, "outs": outs, "frame_ok": bool(frame_ok), "kinds": kinds, "engine": engine}
 
 
@@ -789,7 +793,22 @@ def in_child(fn, arg):
     return json.loads(data)
 
 
+def _sessions(group):
+    return [world_session(a) for a in group]
+
+
+def run_world_group(group):
+    """a group of sessions one after the other in ONE fresh child process -> their records"""
+    import esutil.stat.util  # noqa: loaded (never called) before the fork, so that a child does not pay for the import
+    recs = in_child(_sessions, group)
+    if isinstance(recs, dict):          # the child died: find the session that kills it, alone
+        recs = [run_world(a) for a in group]
+    return recs
+
+
 def run_world(args):
+    """one session in a fresh child process of its own"""
+    import esutil.stat.util  # noqa
     rec = in_child(world_session, args)
     if "died" in rec:
         return {"id": args[0], "kind": "world", "w": args[1], "died": rec["died"]}
@@ -815,7 +834,15 @@ def world_class(w, k, kinds):
     return "same_object_unchanged|" + kc
 
 
-def judge_world(ctx, recs, what):
+def _world_validate(ctx, recs, what):
+    return tracecheck.validate(ctx, "HistTrace.tla", [{"id": r["id"], "kind": "world", "w": r["w"], "outs": r["outs"]} for r in recs],
+                               what=what, shard_size=1200)
+
+
+def judge_world(ctx, recs, what, groups=None):
+    """groups: the sessions that shared a process, in order.  A session rejected there is executed again in a fresh
+    process of its own; if it is accepted alone, the violation needs the sessions before it: the replay case is then
+    that whole prefix, to be executed in one process."""
     ok = []
     for r in recs:
         if "machinery" in r:
@@ -825,17 +852,23 @@ def judge_world(ctx, recs, what):
                           {"kind": "world", "w": r["w"], "id": r["id"]})
         else:
             ok.append(r)
-    rejects = tracecheck.validate(ctx, "HistTrace.tla", [{"id": r["id"], "kind": "world", "w": r["w"], "outs": r["outs"]} for r in ok],
-                                  what=what, shard_size=1200)
+    rejects = _world_validate(ctx, ok, what)
     byid = {r["id"]: r for r in ok}
+    alone = {}
+    if groups and rejects:
+        again = [run_world((rid, byid[rid]["w"])) for rid in sorted(rejects)[:40]]
+        alone = _world_validate(ctx, [r for r in again if "outs" in r], what + " - rejected sessions alone")
     for rid, failing in rejects.items():
         r = byid[rid]
+        case = {"kind": "world", "w": r["w"], "id": r["id"], "outs": r["outs"], "kinds": r["kinds"], "engine": r["engine"]}
+        if groups and rid not in alone:
+            g = next(g for g in groups if any(i == rid for i, _ in g))
+            case = {"kind": "world_group", "id": rid, "sessions": [[i, w] for i, w in g[:[i for i, _ in g].index(rid) + 1]]}
         for f in failing:
             k, cl = f.split(":", 1)
             ctx.violation("histogram.world|%s|%s" % (cl, world_class(r["w"], int(k), r["kinds"])),
                           "call %s of a session of calls in ONE process returned what Hist.tla does not allow for its arguments as they "
-                          "were at the time of the call (a fresh process does): clause %s" % (k, cl),
-                          {"kind": "world", "w": r["w"], "id": r["id"], "outs": r["outs"], "kinds": r["kinds"], "engine": r["engine"]})
+                          "were at the time of the call (a fresh process does): clause %s" % (k, cl), case)
     for r in ok:
         if not r["frame_ok"]:
             ctx.violation("histogram.world|argument_modified", "histogram modified its data argument", {"kind": "world", "w": r["w"], "id": r["id"]})
@@ -1021,12 +1054,14 @@ def run(ctx):
     for r in srecs:
         ctx.count(r["sc"])
     judge_scale(ctx, srecs, "judge scale cases (HistTrace)")
-    # 2e. world sessions, each in a fresh child process of its own, every call judged with the contents of its object at that time
-    wrecs = pmap(run_world, list(enumerate(worlds, wfirst)))
+    # 2e. world sessions, 40 after one another in a fresh child process, every call judged with the contents of its object at that time
+    witems = list(enumerate(worlds, wfirst))
+    wgroups = [witems[k:k + 40] for k in range(0, len(witems), 40)]
+    wrecs = [r for g in pmap(run_world_group, wgroups, chunk=1) for r in g]
     for r in wrecs:
         ctx.count(r["w"])
     ctx.sample({"world_session": wrecs[len(wrecs) // 3]["w"], "observed": wrecs[len(wrecs) // 3].get("outs")})
-    judge_world(ctx, wrecs, "judge world sessions (HistTrace)")
+    judge_world(ctx, wrecs, "judge world sessions (HistTrace)", groups=wgroups)
     # 3. larger seeded cases and histories, code -> spec
     nrand, maxlen = (400, 60) if ctx.quick else (6000, 200)
     rc = random_cases(random.Random(ctx.seed), nrand, maxlen, len(cases) + 1)
@@ -1119,6 +1154,11 @@ def replay(ctx, case):
         report_crashes(ctx, dead, "replay")
         if dead:
             return
+    if case.get("kind") == "world_group":                         # the sessions that shared a process, again in one fresh process
+        recs = run_world_group([tuple(a) for a in case["sessions"]])
+        print("replay observed:", recs[-1].get("outs", recs[-1]))
+        judge_world(ctx, recs[-1:], "replay")
+        return
     if case.get("kind") == "world":
         rec = run_world((case.get("id", 1), case["w"]))           # the whole session again, in a fresh process of its own
         print("replay observed:", rec.get("outs", rec))
